@@ -19,7 +19,9 @@ import (
 	"time"
 
 	kb "github.com/libp2p/go-libp2p-kbucket"
+	"github.com/libp2p/go-libp2p/core/network"
 	"github.com/libp2p/go-libp2p/core/peer"
+	ma "github.com/multiformats/go-multiaddr"
 
 	"github.com/libp2p/go-libp2p-kad-dht/internal/verif/vh"
 	"github.com/libp2p/go-libp2p-kad-dht/internal/verif/vsim"
@@ -35,6 +37,26 @@ type vLkScenario struct {
 	Key       string
 	MaxDelay  int // ms
 	AllAnswer bool
+	Diversity int // > 0: routing-table IP-diversity filter with this per-group table limit; peers clustered in /16 groups
+	Groups    int // number of /16 groups the peers are spread over (Diversity > 0)
+}
+
+// vGroupAddr puts peer i into /16 group i%groups (public range, no legacy class-A block).
+func vGroupAddr(i, groups int) ma.Multiaddr {
+	g := i % groups
+	return ma.StringCast(fmt.Sprintf("/ip4/%d.%d.%d.%d/tcp/4001", 130+(g/250)%39, g%250, (i/groups)/250, 1+(i/groups)%250))
+}
+
+// vGroupOf is the monitor's own /16 group of a simulated peer's address ("" for peers without address).
+func vGroupOf(addrs []ma.Multiaddr) string {
+	for _, a := range addrs {
+		parts := strings.Split(a.String(), "/")
+		if len(parts) > 2 && parts[1] == "ip4" {
+			o := strings.Split(parts[2], ".")
+			return o[0] + "." + o[1]
+		}
+	}
+	return ""
 }
 
 // vLkResult is everything observed in one lookup.
@@ -107,7 +129,34 @@ func vRunLookup(t *testing.T, c *vh.Case, sc vLkScenario) *vLkResult {
 	cfg := sc.Cfg
 	res := &vLkResult{sc: sc, behaviour: map[peer.ID]string{}}
 	var n *vNet
-	if sc.Filter {
+	if sc.Diversity > 0 {
+		groups, lim, want := sc.Groups, sc.Diversity, cfg.Seeds
+		cfg.Seeds = 0
+		cfg.AddrFn = func(i int) ma.Multiaddr { return vGroupAddr(i, groups) }
+		cfg.OptsFn = func(n *vNet) []Option {
+			return []Option{RoutingTablePeerDiversityFilter(NewRTPeerDiversityFilter(n.H, 1000, lim))}
+		}
+		n = vNewNet(t, c, cfg)
+		// the table's diversity filter reads a peer's addresses from its connections: connect the seeds first
+		n.H.RemoteAddrFn = func(p peer.ID) ma.Multiaddr {
+			if sp := n.S.Peer(p); sp != nil && len(sp.Addrs) > 0 {
+				return sp.Addrs[0]
+			}
+			return nil
+		}
+		added := 0
+		for _, i := range c.R.Perm(cfg.N) {
+			if added >= want {
+				break
+			}
+			n.H.Net.AddConn(n.IDs[i], network.DirOutbound, nil, false)
+			if ok, _ := n.D.routingTable.TryAddPeer(n.IDs[i], true, false); ok {
+				added++
+			} else {
+				n.H.Net.Disconnect(n.IDs[i], false)
+			}
+		}
+	} else if sc.Filter {
 		// the filter needs the vNet to map ids to indices: install through a late-bound closure
 		var late *vNet
 		cfg.Opts = append(cfg.Opts, QueryFilter(func(d any, ai peer.AddrInfo) bool { return vFilterFn(late)(d, ai) }))
@@ -221,6 +270,7 @@ type vLkDerived struct {
 	nTerminate  int
 	afterTerm   int // update events after a terminate event
 	hops        int
+	divDrops    int // entries dropped by the diversity rule (monitor's computation)
 }
 
 func vDerive(res *vLkResult) *vLkDerived {
@@ -438,6 +488,33 @@ func vOracleC01(c *vh.Case, res *vLkResult) *vLkDerived {
 			if len(sent) > 2*K {
 				sent = sent[:2*K]
 			}
+			if sc.Diversity > 0 {
+				// peers of an IP group holding more than the limit of distinct peers in this answer are dropped
+				members := map[string]map[peer.ID]bool{}
+				grp := map[peer.ID]string{}
+				for _, pi := range rep.Msg.GetCloserPeers()[:len(sent)] {
+					g := vGroupOf(pi.Addresses())
+					id := peer.ID(pi.GetId())
+					if g == "" {
+						continue
+					}
+					grp[id] = g
+					if members[g] == nil {
+						members[g] = map[peer.ID]bool{}
+					}
+					members[g][id] = true
+				}
+				var kept []peer.ID
+				for _, x := range sent {
+					if g, ok := grp[x]; ok && len(members[g]) > sc.Diversity {
+						c.Clause("diversity-drop")
+						d.divDrops++
+						continue
+					}
+					kept = append(kept, x)
+				}
+				sent = kept
+			}
 			var exp []peer.ID
 			for _, x := range sent {
 				if x == n.Self {
@@ -475,6 +552,8 @@ func vLkDescribe(c *vh.Case, res *vLkResult, d *vLkDerived) {
 	c.Set("fail_frac", sc.FailFrac)
 	c.Set("liar_frac", sc.LiarFrac)
 	c.Set("filter", sc.Filter)
+	c.Set("diversity_limit", sc.Diversity)
+	c.Set("ip_groups", sc.Groups)
 	c.Set("cancel_at_ms", sc.CancelAt.Milliseconds())
 	c.Set("max_delay_ms", sc.MaxDelay)
 	c.Set("reason", d.reason)
@@ -510,6 +589,30 @@ func TestVerif_C01_lookup(t *testing.T) {
 				d := vOracleC01(c, res)
 				vLkDescribe(c, res, d)
 				if !res.Cancelled && d.hops >= 2 && (len(d.F) > 0 || len(d.L) > sc.Cfg.K) {
+					c.Nontrivial(vLkSig(res, d))
+				}
+			})
+		})
+}
+
+func TestVerif_C01_diversity(t *testing.T) {
+	vh.Run(t, vh.Spec{Prop: "C01", Unit: "diversity", Quick: 250, Thorough: 12000, CostMs: 30,
+		Rule: "as unit lookup, with the routing-table IP-diversity filter configured (per-group table limit 1-3, reused by lookups to drop over-represented groups from each response) and simulated peers clustered into 2-12 /16 groups; the oracle additionally recomputes, per response, which entries of the first 2K belong to a group with more than `limit` distinct peers in that answer (monitor's own /16 arithmetic) and requires heard = the rest, filtered; non-trivial = uncancelled, >= 2 hops and at least one response lost entries to the diversity rule; distinct by (shape, arrival order)",
+		Clauses: []string{"heard-is-filtered-answer", "diversity-drop", "result-is-k-nearest-of-learned"}},
+		func(c *vh.Case) {
+			sc := vGenLkScenario(c, false)
+			sc.Filter = false
+			sc.Diversity = 1 + c.R.Intn(3)
+			sc.Groups = 2 + c.R.Intn(11)
+			if sc.Cfg.N < 6 {
+				sc.Cfg.N = 6 + c.R.Intn(60)
+			}
+			c.Bubble(t, 30*time.Minute, "lookup-hang", func(t *testing.T) {
+				res := vRunLookup(t, c, sc)
+				d := vOracleC01(c, res)
+				vLkDescribe(c, res, d)
+				c.Obs("diversity_drops", d.divDrops)
+				if !res.Cancelled && d.hops >= 2 && d.divDrops > 0 {
 					c.Nontrivial(vLkSig(res, d))
 				}
 			})
